@@ -898,12 +898,202 @@ func genProgramPlanted(t *rapid.T, concurrent bool) (si.Program, string) {
 	g.posts()
 	g.pres()
 	g.templates()
+	planted := ""
 	if !concurrent && chance(t, 35, "plantObject") {
-		planted := g.plantObjectChain()
-		return g.p, planted
+		planted = g.plantObjectChain()
 	}
 	// definitions no scenario uses stay: they are legal and must not matter
-	return g.p, ""
+	if ren := g.snakeNames(); ren != nil {
+		if n, ok := ren[planted]; ok {
+			planted = n
+		}
+	}
+	return g.p, planted
+}
+
+// ---- names ----
+//
+// The generator above works with the fixed names alpha / beta_x / g3 (scenarios) and e<k> / r<i> (requests). snakeNames
+// replaces them, in part of the programs, by snake_case names built from a small vocabulary - what real descriptions
+// look like (auth_req, order_req, scenario_name in the documentation). Scenario and request names are free-form strings
+// for pandora and every step must be rendered from the templates of ITS OWN request whatever the names are; in
+// particular for names where two different (scenario, request) pairs read the same when joined by an underscore
+// (scenario `order` + request `new_item`, scenario `order_new` + request `item`).
+var nameWords = []string{"order", "new", "item", "list", "auth", "user", "v2", "get", "a"}
+
+func (g *pgen) snakeName(label string, minWords, maxWords int) []string {
+	n := uni(g.t, minWords, maxWords, label+"Words")
+	w := make([]string, n)
+	for i := range w {
+		w[i] = nameWords[uni(g.t, 0, len(nameWords)-1, label)]
+	}
+	return w
+}
+
+// snakeNames renames scenarios and requests (nil: names left as they are) and returns old -> new request names.
+func (g *pgen) snakeNames() map[string]string {
+	t := g.t
+	if !chance(t, 55, "snakeNames") {
+		return nil
+	}
+	scen := make([]string, len(g.p.Scenarios))
+	req := map[string]string{}
+	usedScen, usedReq := map[string]bool{}, map[string]bool{}
+	if len(g.p.Scenarios) >= 2 && chance(t, 75, "equalJoin") {
+		// a word sequence cut at two different places: scenario w[:i] + request w[i:], scenario w[:j] + request w[j:]
+		a := uni(t, 0, len(g.p.Scenarios)-1, "joinScenA")
+		b := (a + 1 + uni(t, 0, len(g.p.Scenarios)-2, "joinScenB")) % len(g.p.Scenarios)
+		stepsOf := func(k int) []string {
+			seen := map[string]bool{}
+			var out []string
+			for _, st := range g.p.Scenarios[k].Expand() {
+				if !seen[st.Name] {
+					seen[st.Name] = true
+					out = append(out, st.Name)
+				}
+			}
+			return out
+		}
+		ra := stepsOf(a)
+		r1 := ra[uni(t, 0, len(ra)-1, "joinReqA")]
+		var rb []string
+		for _, n := range stepsOf(b) {
+			if n != r1 {
+				rb = append(rb, n)
+			}
+		}
+		if len(rb) > 0 {
+			r2 := rb[uni(t, 0, len(rb)-1, "joinReqB")]
+			w := g.snakeName("joinWord", 3, 4)
+			i := uni(t, 1, len(w)-2, "joinCutA")
+			j := uni(t, i+1, len(w)-1, "joinCutB")
+			if rapid.Bool().Draw(t, "joinSwap") {
+				i, j = j, i
+			}
+			scen[a], scen[b] = strings.Join(w[:i], "_"), strings.Join(w[:j], "_")
+			req[r1], req[r2] = strings.Join(w[i:], "_"), strings.Join(w[j:], "_")
+			usedScen[scen[a]], usedScen[scen[b]] = true, true
+			usedReq[req[r1]], usedReq[req[r2]] = true, true
+			// the two requests are told apart by every part both of them template: in half of the programs both
+			// carry a header of the same name and in a third both have a body
+			q1, q2 := g.p.Request(r1), g.p.Request(r2)
+			if chance(t, 50, "joinSameHeader") {
+				name := rapid.SampledFrom(headerNames).Draw(t, "joinHeaderName")
+				for _, q := range []*si.Request{q1, q2} {
+					has := false
+					for _, h := range q.Headers {
+						has = has || si.CanonHeader(h.Name) == si.CanonHeader(name)
+					}
+					if !has {
+						q.Headers = append(q.Headers, si.Header{Name: name, Value: si.Tmpl{{Lit: "of-" + req[q.Name]}}})
+					}
+				}
+			}
+			if chance(t, 35, "joinBothBody") {
+				for _, q := range []*si.Request{q1, q2} {
+					if q.Body == nil {
+						b := si.Tmpl{{Lit: "body of " + req[q.Name]}}
+						q.Body = &b
+					}
+				}
+			}
+		}
+	}
+	fresh := func(label string, used map[string]bool) string {
+		for try := 0; ; try++ {
+			n := strings.Join(g.snakeName(label, 1, 3), "_")
+			if try >= 4 {
+				n += "_" + strconv.Itoa(len(used))
+			}
+			if !used[n] && n != "sleep" {
+				used[n] = true
+				return n
+			}
+		}
+	}
+	for k := range scen {
+		if scen[k] == "" {
+			scen[k] = fresh("scenarioName", usedScen)
+		}
+	}
+	for _, r := range g.p.Requests {
+		if req[r.Name] == "" {
+			req[r.Name] = fresh("requestName", usedReq)
+		}
+	}
+	renameProgram(&g.p, scen, req)
+	return req
+}
+
+// renameProgram gives the scenarios (by position) and requests (old -> new) other names, everywhere a name is
+// written: request lists, the leading /<name> of every URI, preprocessor paths and template references.
+func renameProgram(p *si.Program, scen []string, req map[string]string) {
+	tmpl := func(t si.Tmpl) {
+		for _, r := range t.Refs() {
+			if r.Req != "" {
+				r.Req = req[r.Req]
+			}
+		}
+	}
+	for i := range p.Requests {
+		r := &p.Requests[i]
+		if len(r.URI) > 0 && r.URI[0].Ref == nil && r.URI[0].Lit == "/"+r.Name {
+			r.URI[0].Lit = "/" + req[r.Name]
+		}
+		r.Name = req[r.Name]
+		tmpl(r.URI)
+		for _, h := range r.Headers {
+			tmpl(h.Value)
+		}
+		if r.Body != nil {
+			tmpl(*r.Body)
+		}
+		for j := range r.Pre {
+			if r.Pre[j].Req != "" {
+				r.Pre[j].Req = req[r.Pre[j].Req]
+			}
+		}
+	}
+	for k := range p.Scenarios {
+		sc := &p.Scenarios[k]
+		sc.Name = scen[k]
+		for j := range sc.Steps {
+			if !sc.Steps[j].Sleep {
+				sc.Steps[j].Name = req[sc.Steps[j].Name]
+			}
+		}
+	}
+}
+
+// equalJoins lists the pairs of (scenario, request) uses of the program that read the same when scenario and request
+// name are joined by an underscore, as "scenarioA/requestA = scenarioB/requestB".
+func equalJoins(p *si.Program) (pairs [][2][2]string) {
+	type use struct{ sc, rq string }
+	byJoin := map[string][]use{}
+	var order []string
+	for _, sc := range p.Scenarios {
+		seen := map[string]bool{}
+		for _, st := range sc.Expand() {
+			if seen[st.Name] {
+				continue
+			}
+			seen[st.Name] = true
+			k := sc.Name + "_" + st.Name
+			if len(byJoin[k]) == 0 {
+				order = append(order, k)
+			}
+			byJoin[k] = append(byJoin[k], use{sc.Name, st.Name})
+		}
+	}
+	for _, k := range order {
+		us := byJoin[k]
+		for i := 0; i < len(us); i++ {
+			for j := i + 1; j < len(us); j++ {
+				pairs = append(pairs, [2][2]string{{us[i].sc, us[i].rq}, {us[j].sc, us[j].rq}})
+			}
+		}
+	}
+	return pairs
 }
 
 // planRun simulates the fault-free run to know how many requests reach the target
